@@ -155,3 +155,55 @@ pub fn c09_aliased_list_equal_iff_elements_equal() {
     forget(a);
     forget(b);
 }
+
+/// min / max of two numbers of different kinds: the result is one of the two and bounds the other (exact comparison, C09)
+fn check_minmax(a: Value, b: Value, expect: Option<Ordering>) {
+    use cel_interpreter::extractors::Arguments;
+    use std::sync::Arc;
+    let mx = cel_interpreter::functions::max(Arguments(Arc::new(vec![a.clone(), b.clone()])));
+    let mn = cel_interpreter::functions::min(Arguments(Arc::new(vec![a.clone(), b.clone()])));
+    match expect {
+        None => { assert!(mx.is_err()); assert!(mn.is_err()); }
+        Some(o) => {
+            // bit-exact identity of the returned value with one of the operands, chosen by the exact order
+            let is = |r: &Value, x: &Value| match (r, x) {
+                (Value::Int(p), Value::Int(q)) => p == q,
+                (Value::UInt(p), Value::UInt(q)) => p == q,
+                (Value::Float(p), Value::Float(q)) => p.to_bits() == q.to_bits(),
+                _ => false,
+            };
+            match (&mx, &mn) {
+                (Ok(hi), Ok(lo)) => {
+                    match o {
+                        Greater => { assert!(is(hi, &a)); assert!(is(lo, &b)); }
+                        Less => { assert!(is(hi, &b)); assert!(is(lo, &a)); }
+                        Equal => { assert!(is(hi, &a) || is(hi, &b)); assert!(is(lo, &a) || is(lo, &b)); }
+                    }
+                }
+                _ => assert!(false),
+            }
+        }
+    }
+    forget(mx); forget(mn); forget(a); forget(b);
+}
+#[cfg_attr(kani, kani::proof)]
+#[cfg_attr(kani, kani::unwind(6))]
+pub fn c09_minmax_int_uint() {
+    let i: i64 = any();
+    let u: u64 = any();
+    check_minmax(Value::Int(i), Value::UInt(u), Some((i as i128).cmp(&(u as i128))));
+}
+#[cfg_attr(kani, kani::proof)]
+#[cfg_attr(kani, kani::unwind(6))]
+pub fn c09_minmax_int_float() {
+    let i: i64 = any();
+    let f: f64 = any();
+    check_minmax(Value::Int(i), Value::Float(f), oracle_cmp(i as i128, f));
+}
+#[cfg_attr(kani, kani::proof)]
+#[cfg_attr(kani, kani::unwind(6))]
+pub fn c09_minmax_uint_float() {
+    let u: u64 = any();
+    let f: f64 = any();
+    check_minmax(Value::UInt(u), Value::Float(f), oracle_cmp(u as i128, f));
+}
